@@ -3,6 +3,7 @@ package props
 import (
 	"context"
 	"fmt"
+	"github.com/elnosh/gonuts/mint"
 
 	"verif/harness/bfs"
 	"verif/harness/mintops"
@@ -66,3 +67,36 @@ func cap2(n, m int) int {
 }
 
 var bgCtx = context.Background()
+
+// unionMenu is the union of the operation menus of all mint-level properties. Each property's own search goes deep
+// inside the alphabet that its statement names; the union search is shallow (depth 2-3) but contains every pair
+// (triple) of operations that ANY property's menu knows, under that property's probes and the shared oracles — an
+// operation that matters for a property but was only thought of for another one is then in reach.
+func unionMenu(w *mintops.W) []string {
+	seen := map[string]bool{}
+	var ops []string
+	for _, menu := range []func(*mintops.W) []string{c01Menu, c02Menu, c03Menu, c05Menu(false), c09Menu, c15Menu, c16Menu, c07GenMenu} {
+		for _, op := range menu(w) {
+			if !seen[op] {
+				seen[op] = true
+				ops = append(ops, op)
+			}
+		}
+	}
+	return ops
+}
+
+// unionSpecs: the union search for one property (its probe), over a fee-bearing configuration and one with limits + MPP.
+func unionSpecs(prop string, probe func(*mintops.W), quick bool) []*bfs.Spec {
+	d := 2
+	if !quick {
+		d = 3
+	}
+	sfx := map[bool]string{true: "-q", false: ""}[quick]
+	specs := []*bfs.Spec{{Prop: prop, Name: prop + "-union-fee100" + sfx, Cfg: mintops.Config{Fee: 100}, Init: []string{"fund|8,4,2,1,1", "mq|8", "meltq|4"}, Menu: unionMenu, Probe: probe, Depth: d}}
+	if !quick {
+		specs = append(specs, &bfs.Spec{Prop: prop, Name: prop + "-union-limits-mpp", Cfg: mintops.Config{Fee: 0, MPP: true, Limits: mint.MintLimits{MaxBalance: 40, MintingSettings: mint.MintMethodSettings{MaxAmount: 8}, MeltingSettings: mint.MeltMethodSettings{MaxAmount: 4}}},
+			Init: []string{"fund|8,4,2,1,1", "mq|8", "meltq|4"}, Menu: unionMenu, Probe: probe, Depth: 2})
+	}
+	return specs
+}
